@@ -72,6 +72,47 @@ pub fn rp_reals(rp: &RangeConstraintParameters) -> Option<Vec<Real>> {
     Some(v)
 }
 
+/// What a generated parameter set publishes, read off its serialization independently of the model:
+/// signatures `σ_0 … σ_{n-1}` followed by the range key (400 bytes).  Soundness of every range
+/// constraint rests on exactly the digits `0..127` carrying a signature (C13 `DigitUnforgeable`,
+/// C02 `pay_balances_in_range`): a published valid signature on a value `≥ 128`, or a missing digit,
+/// is a concrete failing parameter set.
+pub fn published_digits_audit(ctx: &mut Ctx, bytes: &[u8]) -> bool {
+    use zkchannels_crypto::pointcheval_sanders::{PublicKey, Signature};
+    use zkchannels_crypto::Message;
+    const PK1: usize = 400;
+    ctx.evals += 1;
+    if bytes.len() < PK1 || (bytes.len() - PK1) % 96 != 0 {
+        ctx.broken("range parameters do not serialize as signatures followed by a 400-byte key");
+        return false;
+    }
+    let n = (bytes.len() - PK1) / 96;
+    let pk: PublicKey<1> = match wire::de(&bytes[n * 96..]) { Ok(p) => p, Err(_) => { ctx.broken("range key does not decode"); return false; } };
+    let mut ok = true;
+    for i in 0..n {
+        let sig: Signature = match wire::de(&bytes[96 * i..96 * i + 96]) { Ok(s) => s, Err(_) => { ctx.broken("published digit signature does not decode"); return false; } };
+        let on = |v: u64| sig.verify(&pk, &Message::<1>::from(Scalar::from(v)));
+        if i >= 128 {
+            // which value does the surplus signature sign?
+            let signed = (0..=512u64).find(|v| on(*v));
+            ctx.violation(
+                &format!("RangeConstraintParameters::new publishes {} digit signatures; signature #{} is valid on the value {:?} — a digit outside 0..127 makes values >= 2^63 provable in range", n, i, signed),
+                json!({"class": "range-parameters-sign-digit-out-of-range", "published": n, "index": i, "signed_value": signed, "parameters": hex::encode(bytes)}),
+            );
+            ok = false;
+        } else if !on(i as u64) {
+            ctx.violation(&format!("published digit signature #{} is not a valid signature on {}", i, i), json!({"class": "range-parameters-digit-signature-invalid", "index": i}));
+            ok = false;
+        }
+    }
+    if n < 128 {
+        ctx.violation(&format!("RangeConstraintParameters::new publishes only {} digit signatures: digits {}..127 cannot be proven", n, n), json!({"class": "range-parameters-digits-missing", "published": n}));
+        ok = false;
+    }
+    ctx.count(&format!("published-digits:{}:{}", n, ok));
+    ok
+}
+
 /// `RangeConstraintParameters::new` under the scripted generator, compared with the model's generator
 pub fn rp_generated(ctx: &mut Ctx, forced: &[Scalar]) -> Option<(RangeConstraintParameters, RpD)> {
     let book = ctx.book.clone();
@@ -83,6 +124,7 @@ pub fn rp_generated(ctx: &mut Ctx, forced: &[Scalar]) -> Option<(RangeConstraint
         return None;
     }
     let bytes = wire::ser(&rp);
+    if !published_digits_audit(ctx, &bytes) { return None; }
     let stream = stream_arg(&book, &rng.log, &bytes);
     let mut reals = rp_reals(&rp)?;
     reals.push(Real::N(0));
